@@ -257,6 +257,20 @@ let handle (x : sx) : ostring =
            "ONLFOREST " ^ OS.concat " ; " (List.map show_l rets) ^ " | GET " ^
            OS.concat " ; " (List.map (fun (vs, _) -> OS.concat " , " (List.map show_l vs)) rs) ^ " | SUB " ^
            OS.concat " ; " (List.map (fun (_, os) -> OS.concat " , " (List.map show_o os)) rs))
+  | L [A (("onlmonreset" | "pastonlmonreset") as cmd); mode; pk; f; L segs] ->
+      (* (onlmonreset MODE PK FORMULA ((ENV ...) (ENV ...) ...)): one list of update() data sets per segment, a reset() between segments *)
+      let pk = pk_of_sx pk and f = formula_of_sx f in
+      let f = if cmd = "pastonlmonreset" then run_pastify true f else f in
+      let smp = function L [t; v] -> (z_of_int (int_of_string (atom t)), (Obj.magic (extz_of_string (atom v)) : v)) | _ -> failwith "sample" in
+      let sig_of = function L l -> List.map smp l | _ -> failwith "sig" in
+      let env_of = function L l -> List.map sig_of l | _ -> failwith "env" in
+      let seg_of = function L l -> List.map env_of l | _ -> failwith "segment" in
+      let show_t = function TInf -> "inf" | T z -> string_of_int (int_of_z z) in
+      let show_s (t, v) = show_t t ^ ":" ^ string_of_extz (Obj.magic v) in
+      let show_seg outs = "#" ^ string_of_int (List.length outs) ^ " " ^ OS.concat " ; " (List.map (fun l -> OS.concat " " (List.map show_s l)) outs) in
+      (match Obj.magic (run_onlmonreset (nat_of_sx mode) pk f (Obj.magic (List.map seg_of segs))) with
+       | None -> "ONLMONRESET BAD"
+       | Some outs -> "ONLMONRESET " ^ OS.concat " | " (List.map show_seg outs))
   | L [A "onlun"; kind; L bs] ->
       let tz_of s = if s = "inf" then TInf else T (z_of_int (int_of_string s)) in
       let smp = function L [t; v] -> (tz_of (atom t), (Obj.magic (extz_of_string (atom v)) : v)) | _ -> failwith "sample" in
